@@ -114,6 +114,19 @@ def run(ctx):
         sid += 1
         scns.append({"id": sid, "mode": "schedule", "bs": s["bs"], "w": s["w"], "steps": s["steps"], "nfiles": 1,
                      "second": False, "rseed": ctx.seed})
+    # hand-written schedules for "a call between the start and the completion of an asynchronous flush's
+    # block write" with two files packed into one block (beyond the Gen bounds: block size 8, 2 files)
+    for what in ("grow", "shrink", "overwrite", "append", "grow_fail"):
+        mid = {"grow": [{"op": "trunc", "h": 1, "n": 5}], "grow_fail": [{"op": "trunc", "h": 1, "n": 6}],
+               "shrink": [{"op": "trunc", "h": 1, "n": 1}],
+               "overwrite": [{"op": "seek", "h": 1, "off": 0}, {"op": "write", "h": 1, "d": "y"}],
+               "append": [{"op": "write", "h": 1, "d": "yx"}]}[what]
+        sid += 1
+        scns.append({"id": sid, "mode": "schedule", "bs": 8, "w": 4, "nfiles": 2, "second": False, "rseed": ctx.seed,
+                     "steps": [{"op": "write", "h": 1, "d": "xyx"}, {"op": "write", "h": 2, "d": "yy"},
+                               {"op": "flush", "short": True}] + mid +
+                              [{"op": "put", "data": "xyxyy", "ok": what != "grow_fail", "kind": "async"},
+                               {"op": "read", "h": 2, "n": 2}]})
     rscns = []
     nrand = 16 if ctx.thorough else 5
     for i in range(nrand):
